@@ -332,6 +332,73 @@ def check(ctx):
            "str(metric), names as given" if ok else
            "get_result: label/title are not derived from the metric's class "
            "name and current unit", key="C12.5:result-label")
+    # ... and what get_result hands to the Result is what the Result holds:
+    # each add_* method stores its argument itself under the given name / key
+    RES = "evo.core.result.Result"
+    for meth, attr, keyed in (("add_np_array", "np_arrays", True),
+                              ("add_trajectory", "trajectories", True),
+                              ("add_info", "info", False),
+                              ("add_stats", "stats", False)):
+        m_ = prog.func(f"{RES}.{meth}")
+        rm_ = Interp(prog).run(m_)
+        val = tm.param(m_.params[-1])
+        slot = tm.attr(tm.param(m_.params[0]), attr)
+
+        def rooted(t, slot=slot) -> bool:
+            return isinstance(t, T) and any(x is slot for x in t.walk())
+        stored = False
+        derived = False      # something computed from the argument is stored
+
+        def same(v, val=val) -> bool:
+            # the argument itself or a copy / array view of it
+            v = Interp.unname(v)
+            for _ in range(3):
+                if v is val:
+                    return True
+                if is_call_to(v, ".copy") and not v.args[1]:
+                    v = Interp.unname(tm.method_recv(v))
+                elif is_call_to(v, "numpy.array", "numpy.asarray",
+                                "numpy.copy", "copy.copy", "copy.deepcopy",
+                                "builtins.dict") and len(v.args[1]) == 1:
+                    v = Interp.unname(v.args[1][0])
+                else:
+                    break
+            return v is val
+        for e in rm_.events:
+            if e.kind == "setitem" and rooted(e.data["base"]):
+                hit = same(e.data["value"]) and tm.is_const(e.live, True) \
+                    and (not keyed or e.data["index"] is tm.param(
+                        m_.params[1]))
+                stored = stored or hit
+                derived = derived or (not hit and any(
+                    x is val for x in e.data["value"].walk()))
+            if e.kind == "call" and e.data.get("name") == ".update" and \
+                    rooted(e.data.get("recv")) and e.data["args"]:
+                a0 = e.data["args"][0]
+                hit = tm.is_const(e.live, True) and (same(a0) or (
+                    keyed and a0.op == "dict" and len(a0.args) == 1 and
+                    a0.args[0][0] is tm.param(m_.params[1]) and
+                    same(a0.args[0][1])))
+                stored = stored or hit
+                derived = derived or (not hit and any(
+                    x is val for x in a0.walk()))
+        for (b_, a_), v_ in rm_.attrs.items():
+            # self.info = {**self.info, **info_dict}
+            if b_ is tm.param(m_.params[0]) and a_ == attr and any(
+                    x is val for x in v_.walk()):
+                if not keyed:
+                    stored = True
+                else:
+                    derived = True
+        ctx.ob("C12.1", m_, stored,
+               f"Result.{meth} stores its argument in `{attr}`"
+               + (" under the given name" if keyed else "") if stored else
+               f"Result.{meth} does not store its argument in `{attr}`: "
+               f"what get_result() hands over is not in the result",
+               key=f"C12.1:result-container:{meth}",
+               evidence=not derived and not indirect_calls(rm_) and not any(
+                   e.kind == "call" and e.data.get("target") is not None
+                   and not e.data.get("inlined") for e in rm_.events))
     for cls_ in ("APE", "RPE"):
         s = prog.func(f"evo.core.metrics.{cls_}.__str__")
         rs = Interp(prog).run(s)
@@ -674,6 +741,20 @@ def _companions(ctx):
 
 
 VARIANTS = [
+    dict(name="result-add-info-dropped", file="evo/core/result.py",
+         find="        self.info.update(info_dict)",
+         replace="        pass", expect="fire", rule="C12.1"),
+    dict(name="result-add-trajectory-dropped", file="evo/core/result.py",
+         find="        self.trajectories[name] = traj",
+         replace="        pass", expect="fire", rule="C12.1"),
+    dict(name="result-array-stored-as-copy", file="evo/core/result.py",
+         find="        self.np_arrays[name] = array",
+         replace="        self.np_arrays[name] = np.array(array)",
+         expect="silent"),
+    dict(name="result-info-rebuilt", file="evo/core/result.py",
+         find="        self.info.update(info_dict)",
+         replace="        self.info = {**self.info, **info_dict}",
+         expect="silent"),
     dict(name="std-ddof-1", file="evo/core/metrics.py",
          find="            return float(np.std(self.error))",
          replace="            return float(np.std(self.error, ddof=1))",
